@@ -7,6 +7,7 @@ use serde::{Deserialize, Serialize};
 use std::collections::BTreeMap;
 
 pub mod c01;
+pub mod c02;
 pub mod c04;
 pub mod c05;
 pub mod c06;
@@ -20,6 +21,7 @@ pub mod c15;
 pub mod c16;
 pub mod gen;
 pub mod oracle;
+pub mod spec;
 
 #[derive(Clone, Debug, Serialize, Deserialize)]
 pub struct Case {
@@ -119,6 +121,7 @@ pub trait Property: Sync {
 pub fn all() -> Vec<Box<dyn Property>> {
     vec![
         Box::new(c01::C01),
+        Box::new(c02::C02),
         Box::new(c04::C04),
         Box::new(c05::C05),
         Box::new(c06::C06),
